@@ -219,7 +219,9 @@ func (r *Run) runCase(stream string, i int, body func(i int, rng *rand.Rand)) {
 		}
 		r.mu.Unlock()
 	}()
-	cur := filepath.Join(Root(), "evidence", ".current", fmt.Sprintf("%s.%s.json", r.ID, stream))
+	// one descriptor per case in flight (cases of one stream may run in parallel): whatever is still there when the
+	// process dies is a case that had not finished
+	cur := filepath.Join(Root(), "evidence", ".current", fmt.Sprintf("%s.%s.%d.json", r.ID, stream, i))
 	desc := map[string]any{"property": r.ID, "stream": stream, "case": i, "seed": r.Seed, "tier": r.Tier}
 	b, _ := json.Marshal(desc)
 	os.WriteFile(cur, b, 0o644)
